@@ -93,10 +93,12 @@ def d1(ctx, rep):
                   construct=f'check_marginal({col})')
         if hit:
             chain.append(cfg.node_containing(hit[0]))
-    taus = [s for s in walk_no_nested(fn.node) if isinstance(s, ast.Assign) and any(is_self_attr(t, fn.self_name, 'tau') for t in s.targets)]
+    from ..idioms import attr_stores, resolve
+    tstores = attr_stores(fn, 'tau')
+    taus = [s_ for s_, _v in tstores]
     good = False
     if len(taus) == 1:
-        val = taus[0].value
+        val = resolve(fn.node, tstores[0][1]) if isinstance(tstores[0][1], ast.AST) else None
         if isinstance(val, ast.Subscript) and const_value(val.slice) == 0 and isinstance(val.value, ast.Call) \
                 and prog.resolve(fn.module, val.value.func) == 'scipy.stats.kendalltau':
             a = val.value.args
@@ -110,17 +112,26 @@ def d1(ctx, rep):
               construct='tau assignment')
     if taus:
         chain.append(cfg.node_of(taus[0]))
-    # NaN refusal
-    nan_ifs = [n for n in walk_no_nested(fn.node) if isinstance(n, ast.If) and any(
-        isinstance(c, ast.Call) and prog.resolve(fn.module, c.func) in ('numpy.isnan', 'math.isnan')
-        and c.args and is_self_attr(c.args[0], fn.self_name, 'tau') for c in ast.walk(n.test))]
-    good = False
-    if nan_ifs:
-        paths = enum_paths(nan_ifs[0].body)
-        good = bool(paths) and all(isinstance(p.end, ast.Raise) and raises([p.end], ('ValueError',)) for p in paths)
-        chain.append(cfg.node_of(nan_ifs[0]))
-    rep.check('D1.path', fn, nan_ifs[0] if nan_ifs else fn.node.name, good, 'a NaN tau (constant column, too few points) always raises ValueError',
-              'a NaN tau does not always raise ValueError: fit leaves a silently invalid model', construct='NaN refusal')
+    # NaN refusal: fit never returns normally when tau is NaN, and what stops it is a ValueError
+    from ..boolcond import Conds, atoms_of, f_and, satisfiable
+    cd = Conds(prog, fn)
+    normal, rs, _rets = cd.exits()
+    keys = set(atoms_of(normal))
+    for _s, c in rs:
+        keys |= set(atoms_of(c))
+    nan_atoms = [k for k in keys if 'isnan' in k]
+    if not nan_atoms:
+        rep.bad('D1.path', fn, fn.node.name, 'fit never tests tau for NaN: a constant column leaves a silently invalid model', construct='NaN refusal')
+    else:
+        nan = ('atom', nan_atoms[0])
+        leak = satisfiable(f_and(normal, nan))
+        stops = [st for st, c in rs if satisfiable(f_and(c, nan))]
+        ok_exc = bool(stops) and all(raises([st], ('ValueError',)) for st in stops)
+        if leak is None:
+            rep.undecided('D1.path', fn, fn.node.name, 'NaN refusal: too many conditions', construct='NaN refusal')
+        else:
+            rep.check('D1.path', fn, stops[0] if stops else fn.node.name, (not leak) and ok_exc, 'a NaN tau (constant column, too few points) always raises ValueError',
+                      'a NaN tau does not always raise ValueError: fit leaves a silently invalid model', construct='NaN refusal')
     ct = [c for c in walk_no_nested(fn.node) if isinstance(c, ast.Call) and is_self_attr(c.func, fn.self_name, '_compute_theta')]
     rep.check('D1.path', fn, ct[0] if ct else fn.node.name, bool(ct) and dominates_exit(ct[0])[0],
               '_compute_theta() on every normal exit', 'fit can return without calibrating theta', construct='_compute_theta call')
@@ -130,7 +141,7 @@ def d1(ctx, rep):
     chain = [n for n in chain if n is not None]
     domx = cfg.dominators(exceptional=True)
     in_order = all(chain[i].id in domx.get(chain[i + 1].id, ()) for i in range(len(chain) - 1))
-    rep.check('D1.path', fn, fn.node.name, in_order and len(chain) >= 6, 'the steps dominate each other in the stated order',
+    rep.check('D1.path', fn, fn.node.name, in_order and len(chain) >= 5, 'the steps dominate each other in the stated order',
               'the validation steps do not run in the order split -> range checks -> tau -> NaN refusal -> calibration', construct='order of the steps')
 
 
@@ -218,42 +229,43 @@ def d3(ctx, rep):
     rep.check('D3.validate', fn, assigns[0] if assigns else fn.node.name, good, 'check_theta() post-dominates the assignment',
               'theta can be assigned without being validated afterwards', construct='check after assign')
     ck = prog.method(BIV, 'check_theta', inherited=False)
-    ifs = [n for n in walk_no_nested(ck.node) if isinstance(n, ast.If) and raises(n.body, ('ValueError',))]
-    if not ifs:
+    from ..boolcond import Conds, atoms_of, equivalent, f_or, show
+    cd = Conds(prog, ck)
+    _normal, rs, _rets = cd.exits()
+    verr = [(st, c) for st, c in rs if raises([st], ('ValueError',))]
+    bounds = _interval_names(ck)
+    if not verr:
         rep.bad('D3.check', ck, ck.node.name, 'check_theta never raises ValueError', construct='theta guard')
+    elif not bounds:
+        rep.undecided('D3.check', ck, ck.node.name, 'lower / upper not unpacked from theta_interval', construct='theta guard')
     else:
-        t = ifs[0].test
-        parts = t.values if isinstance(t, ast.BoolOp) and isinstance(t.op, ast.Or) else [t]
-        has_interval = has_invalid = False
-        bounds = _interval_names(ck)
-        for p in parts:
-            q, neg = p, False
-            while isinstance(q, ast.UnaryOp) and isinstance(q.op, ast.Not):
-                q, neg = q.operand, not neg
-            if isinstance(q, ast.Compare):
-                if len(q.ops) == 2 and neg and all(isinstance(o, ast.LtE) for o in q.ops) \
-                        and is_self_attr(q.comparators[0], ck.self_name, 'theta') \
-                        and [getattr(q.left, 'id', None), getattr(q.comparators[1], 'id', None)] == bounds:
-                    has_interval = True
-                if len(q.ops) == 1 and isinstance(q.ops[0], ast.In) and not neg and is_self_attr(q.left, ck.self_name, 'theta') \
-                        and is_self_attr(q.comparators[0], ck.self_name, 'invalid_thetas'):
-                    has_invalid = True
-        # alternative spelling: theta < lower or theta > upper
-        lows = [p for p in parts if isinstance(p, ast.Compare) and len(p.ops) == 1 and isinstance(p.ops[0], ast.Lt)
-                and is_self_attr(p.left, ck.self_name, 'theta') and bounds and getattr(p.comparators[0], 'id', None) == bounds[0]]
-        ups = [p for p in parts if isinstance(p, ast.Compare) and len(p.ops) == 1 and isinstance(p.ops[0], ast.Gt)
-               and is_self_attr(p.left, ck.self_name, 'theta') and bounds and getattr(p.comparators[0], 'id', None) == bounds[1]]
-        if lows and ups:
-            has_interval = True
-        rep.check('D3.check', ck, t, has_interval, 'refuses theta outside the closed interval [lower, upper]',
-                  'the interval test does not refuse exactly the values outside [lower, upper]', construct='interval test')
-        rep.check('D3.check', ck, t, has_invalid, 'refuses theta in invalid_thetas', 'values listed in invalid_thetas are not refused',
-                  construct='invalid values test')
+        cond = f_or(*[c for _st, c in verr])
+        th = f'{ck.self_name}.theta'
+        a_lo, a_hi, a_inv = f'lt[{th}|{bounds[0]}]', f'lt[{bounds[1]}|{th}]', f'in[{th}|{ck.self_name}.invalid_thetas]'
+        keys = set(atoms_of(cond))
+        want_iv = f_or(('atom', a_lo), ('atom', a_hi))
+        want = f_or(want_iv, ('atom', a_inv))
+        if keys - {a_lo, a_hi, a_inv}:
+            # a strict bound shows up as another atom: lt[lower|theta] negated etc.
+            strict = {f'lt[{bounds[0]}|{th}]', f'lt[{th}|{bounds[1]}]'} & keys
+            if strict:
+                rep.bad('D3.check', ck, verr[0][0], 'the interval test treats a bound as excluded (strict comparison): the closed interval [lower, upper] is admissible',
+                        construct='interval test')
+            else:
+                rep.undecided('D3.check', ck, verr[0][0], f'refusal condition not recognised ({show(cond)[:120]})', construct='interval test')
+        else:
+            eq = equivalent(cond, want)
+            eq_iv = equivalent(cond, want_iv)
+            rep.check('D3.check', ck, verr[0][0], bool(eq) or bool(eq_iv), 'refuses theta outside the closed interval [lower, upper]',
+                      f'the refusal condition `{show(cond)[:120]}` is not "theta < lower or theta > upper"', construct='interval test')
+            rep.check('D3.check', ck, verr[0][0], bool(eq), 'refuses theta in invalid_thetas', 'values listed in invalid_thetas are not refused',
+                      construct='invalid values test')
     gum = prog.cls('copulas.bivariate.gumbel.Gumbel').methods.get('compute_theta')
     if gum is not None:
-        ok = any(isinstance(n, ast.If) and raises(n.body, ('ValueError',)) and any(
-            is_self_attr(x, gum.self_name, 'tau') for x in ast.walk(n.test)) and any(
-            const_value(x) == 1 for x in ast.walk(n.test)) for n in walk_no_nested(gum.node))
+        cdg = Conds(prog, gum)
+        _n, rsg, _r = cdg.exits()
+        ok = any(raises([st], ('ValueError',)) and any(k.startswith('eq[') and f'{gum.self_name}.tau' in k and ('|1]' in k or '[1|' in k or '1.0' in k)
+                                                         for k in atoms_of(c)) for st, c in rsg)
         rep.check('D3.check', gum, gum.node.name, ok, 'Gumbel refuses tau == 1 (division by zero)', 'Gumbel does not refuse tau == 1',
                   construct='Gumbel tau == 1')
 
